@@ -12,7 +12,8 @@ From Coq Require Import ZArith List Bool.
 Import ListNotations.
 Open Scope Z_scope.
 
-Inductive kind := KConst | KArg | KAccum.
+(* KMemo: a memo table keyed by the full argument tuple: `if key not in G: G[key] = pure(args)` *)
+Inductive kind := KConst | KArg | KAccum | KMemo.
 
 Record sig := mk_sig {
   s_id : Z;                       (* function id (index in the generated list) *)
@@ -44,13 +45,15 @@ Variable table : list sig.
 Variable const : Z -> val.                                   (* value of a ConstExpr table *)
 Variable argval : Z -> args -> Z -> val.                      (* what an argument-dependent write stores *)
 Variable accval : Z -> args -> Z -> option val -> val.        (* an accumulating write: depends on the old content *)
+Variable mval : Z -> args -> val.                             (* what a memo table stores under the key `args` *)
+Variable key_eqb : args -> args -> bool.                      (* equality of memo keys (dict lookup) *)
 
 Inductive rsrc := NoDraw | Seeded (s : Z) | Ambient (r : rstate) | Entropy (t : nat).
 
 Variable body : Z -> args -> list (option val) -> rsrc -> res.
 Variable rng_next : Z -> args -> rsrc -> rstate -> rstate.    (* global RNG state the call leaves behind *)
 
-Record world := mk_world { cache : Z -> option val; rng : rstate; clock : nat }.
+Record world := mk_world { cache : Z -> option val; memo : Z -> args -> option val; rng : rstate; clock : nat }.
 
 Definition fill1 (f : Z) (a : args) (c : Z -> option val) (gk : Z * kind) : Z -> option val :=
   fun g =>
@@ -59,11 +62,28 @@ Definition fill1 (f : Z) (a : args) (c : Z -> option val) (gk : Z * kind) : Z ->
       | KConst => match c g with Some v => Some v | None => Some (const g) end
       | KArg => match c g with Some v => Some v | None => Some (argval f a g) end
       | KAccum => Some (accval f a g (c g))
+      | KMemo => c g
       end
     else c g.
 
 Definition fill (f : Z) (a : args) (c : Z -> option val) (l : list (Z * kind)) : Z -> option val :=
   fold_left (fill1 f a) l c.
+
+(* memo tables: an entry is added under the key of this call unless one is there already *)
+Definition mfill1 (a : args) (m : Z -> args -> option val) (gk : Z * kind) : Z -> args -> option val :=
+  fun g k =>
+    match snd gk with
+    | KMemo => if (g =? fst gk) && key_eqb a k then
+                 match m g k with Some v => Some v | None => Some (mval g a) end
+               else m g k
+    | _ => m g k
+    end.
+
+Definition mfill (a : args) (m : Z -> args -> option val) (l : list (Z * kind)) : Z -> args -> option val :=
+  fold_left (mfill1 a) l m.
+
+Definition is_memo (g : Z) (l : list (Z * kind)) : bool :=
+  existsb (fun gk => (g =? fst gk) && match snd gk with KMemo => true | _ => false end) l.
 
 Definition src_of (s : sig) (w : world) : rsrc :=
   if s_entropy s then Entropy (clock w)
@@ -72,26 +92,30 @@ Definition src_of (s : sig) (w : world) : rsrc :=
           else Ambient (rng w))
        else NoDraw.
 
-Definition view (s : sig) (c0 c1 : Z -> option val) : list (option val) :=
-  map (fun g => if memZ g (s_unguarded s) then c0 g else c1 g) (s_reads s).
+(* a memo table is read under the key of the call only *)
+Definition view (s : sig) (a : args) (c0 c1 : Z -> option val) (m1 : Z -> args -> option val) : list (option val) :=
+  map (fun g => if is_memo g (s_fills s) then m1 g a
+                else if memZ g (s_unguarded s) then c0 g else c1 g) (s_reads s).
 
 Definition step (w : world) (call : Z * args) : res * world :=
   let s := lookup table (fst call) in
   let c1 := fill (fst call) (snd call) (cache w) (s_fills s) in
+  let m1 := mfill (snd call) (memo w) (s_fills s) in
   let src := src_of s w in
-  (body (fst call) (snd call) (view s (cache w) c1) src,
-   mk_world c1 (if s_draws s then rng_next (fst call) (snd call) src (rng w) else rng w) (S (clock w))).
+  (body (fst call) (snd call) (view s (snd call) (cache w) c1 m1) src,
+   mk_world c1 m1 (if s_draws s then rng_next (fst call) (snd call) src (rng w) else rng w) (S (clock w))).
 
 Definition run_from (w : world) (h : list (Z * args)) : world := fold_left (fun w c => snd (step w c)) h w.
-Definition init (r0 : rstate) : world := mk_world (fun _ => None) r0 0%nat.
+Definition init (r0 : rstate) : world := mk_world (fun _ => None) (fun _ _ => None) r0 0%nat.
 Definition run (r0 : rstate) (h : list (Z * args)) : world := run_from (init r0) h.
 Definition result_after (r0 : rstate) (h : list (Z * args)) (c : Z * args) : res := fst (step (run r0 h) c).
 End Hist.
 
-Arguments cache {val rstate} w.
-Arguments rng {val rstate} w.
-Arguments clock {val rstate} w.
-Arguments mk_world {val rstate} cache rng clock.
+Arguments cache {args val rstate} w.
+Arguments memo {args val rstate} w.
+Arguments rng {args val rstate} w.
+Arguments clock {args val rstate} w.
+Arguments mk_world {args val rstate} cache memo rng clock.
 Arguments NoDraw {rstate}.
 Arguments Seeded {rstate} s.
 Arguments Ambient {rstate} r.
